@@ -60,6 +60,7 @@ let line l =
   match split_on ' ' l with
   | "CONF" :: args -> set_conf args; print_endline "CONF ok"
   | ["RESET"] -> rs := []; last_key := None; print_endline "RESET ok"
+  | ["PURGE"; now] -> rs := r_purge (n (int_of_string now)) !rs; Printf.printf "PURGE %d\n" (List.length !rs)
   | ["ROLLBACK"] -> rs := dec_rollback !rs !last_key; last_key := None; print_endline "ROLLBACK ok"
   | ["ENC"; ci; ma; zi; realm; ttl; au; ag; data; retry; pu; pg; now; salt; iv] ->
       let r = unhex realm and d = unhex data in
